@@ -138,7 +138,10 @@ def gen(rng, tier, index):
         msgs = [_to_json(_gen_value(rng)) for _ in range(rng.choice([1, 2, 3, 4, 6]))]
         return {"kind": "cut", "messages": msgs, "opts": rng.choice(["none", "none", "kw", "nrepl"]),
                 "ksplits": [sorted(rng.random() for _ in range(rng.choice([2, 3, 5]))) for _ in range(3)],
-                "native": rng.random() < 0.3}
+                "native": rng.random() < 0.3,
+                # an encode that FAILS half-way (an unsupported value buried in a Python list/dict), after which
+                # the repaired container objects must encode exactly as if nothing had happened
+                "poison": rng.random() < 0.5}
     conns = []
     for c in range(rng.choice([1, 1, 2, 3])):
         reqs = []
@@ -282,6 +285,27 @@ def _plain(v):
     return v
 
 
+def _poison(lv):
+    """Bury a float in the deepest Python list/dict reachable from lv; returns the undo fn (None: no container)."""
+    best = None
+    stack = [(lv, 0)]
+    while stack:
+        x, d = stack.pop()
+        if isinstance(x, (list, dict)):
+            if best is None or d >= best[1]:
+                best = (x, d)
+            for y in (x.values() if isinstance(x, dict) else x):
+                stack.append((y, d + 1))
+    if best is None:
+        return None
+    c = best[0]
+    if isinstance(c, list):
+        c.append(1.5)
+        return c.pop
+    c["zz-poison"] = 1.5
+    return lambda: c.pop("zz-poison")
+
+
 def _run_cut(workload, k):
     msgs = [_from_json(m) for m in workload["messages"]]
     opts = {"none": _st["empty"], "kw": _st["opts_kw"], "nrepl": _st["opts_nrepl"]}[workload["opts"]]
@@ -290,8 +314,17 @@ def _run_cut(workload, k):
     pieces = []
     for m in msgs:
         want = REF.encode(m)
+        lv = _to_lisp(m, workload["native"])
+        if workload.get("poison") and workload["native"]:
+            undo = _poison(lv)
+            if undo is not None:
+                try:
+                    enc(lv)
+                except Exception:  # noqa: BLE001   (expected: 1.5 is outside the codec's domain)
+                    pass
+                undo()
         try:
-            got = enc(_to_lisp(m, workload["native"]))
+            got = enc(lv)
         except Exception as e:  # noqa: BLE001
             return R.verdict("violation", f"{ID}/encode-raised:{type(e).__name__}", {"message": workload["messages"]})
         if bytes(got) != want:
